@@ -1,3 +1,4 @@
+import functools
 import inspect
 
 import jax.numpy as jnp
@@ -172,11 +173,19 @@ def get_combined_constraint(model: InternalModel):
     targets = model.function_info.query("is_constraint").index.tolist()
 
     if targets:
-        combined_constraint = concatenate_functions(
+        _combined_constraint = concatenate_functions(
             functions=model.functions,
             targets=targets,
             aggregator=jnp.logical_and,
         )
+
+        # A constraint holds if its value is truthy. With a single constraint the
+        # aggregator is not applied, and a constraint that returns 0 / 1 integers would
+        # otherwise reach jnp.max(..., where=...) with a non-boolean data type.
+        @functools.wraps(_combined_constraint)
+        def combined_constraint(*args, **kwargs):
+            return jnp.asarray(_combined_constraint(*args, **kwargs), dtype=bool)
+
     else:
 
         def combined_constraint():
